@@ -23,7 +23,7 @@ func TestCheck(t *testing.T) {
 	ev = drv.NewEvidence("C02", "exploration", rule)
 	nBundles, k, nMasks := 6, 14, 6
 	if drv.Thorough() {
-		nBundles, k, nMasks = 100, 16, 10
+		nBundles, k, nMasks = 50, 16, 10
 	}
 	type bundle struct {
 		scs   []progen.Scenario
